@@ -184,7 +184,7 @@ func NewExec(prog *ssa.Program, solverKind string, timeoutMs int) (*Exec, error)
 	}
 	ex := &Exec{ts: ts, prog: prog, solver: s, infos: map[*ssa.Function]*fnInfo{}, constIx: map[string]int{},
 		params: map[string]int{}, violSeen: map[string]int{}, unwind: 200, maxSteps: 2000000, maxPaths: 1000000, maxDepth: 200,
-		allocCap: 65536, mapOrders: true, unsatMemo: map[uint32]*PCNode{}}
+		allocCap: 1 << 24, mapOrders: true, unsatMemo: map[uint32]*PCNode{}}
 	ex.resetStats()
 	ex.msolver = s
 	if os.Getenv("VCHECK_NOALT") == "" {
